@@ -1237,6 +1237,10 @@ fn apply(w: &mut World, op: &Op, obs: &mut Obs) -> Result<Option<String>, String
             }
             std::mem::swap(&mut w.m.inputs, &mut w.m.outputs);
             w.m.scalar = w.m.scalar.conj();
+            // the conditioned factors are part of the scalar
+            for f in w.m.factors.values_mut() {
+                *f = f.conj();
+            }
             both!(w, &what, |im| im.g.adjoint());
         }
     }
